@@ -40,9 +40,13 @@ CHECKS = {
        'highest), UIDNEXT > every existing UID and <= the next UID assigned, APPENDUID = stored UID, UIDs and UIDVALIDITY travel with '
        'RENAME. COPYUID: for symbolic increasing (source, destination) pairs the rendered response code is re-parsed with the real '
        'parser, expanded and zipped back to the pairs. dovecot-uidlist header and record lines round-trip for symbolic numbers, '
-       'file names and field values.',
-  note=TRUST + 'Outside: maildir UID assignment across restart/crash (C15), concurrent appenders inside one command, UIDVALIDITY '
-       'collision of a re-created mailbox.',
+       'file names and field values. Concurrency: 2 (quick) / 3 (thorough) additions to one mailbox really interleaving, the scheduler and '
+       'third-party lock delays drawn from the engine, symbolic UID counters - dict backend: real MailboxData.append/copy/move with an '
+       'exclusion-preserving lock stub; maildir backend: real MailboxData.append/copy/move, UidList.with_write, file_read/file_write and '
+       'FileLock on an in-memory file system with a symbolic next-UID, a stub Maildir store and a third party holding the lock file: '
+       'UIDs pairwise distinct, above all earlier ones, each denoting the message it was reported for, no record lost.',
+  note=TRUST + 'Outside: maildir UID assignment across restart/crash (C15), more than 3 concurrent additions, interleaving of two '
+       'processes at single file-system-call granularity, UIDVALIDITY collision of a re-created mailbox.',
   technique='symbolic execution of the real code with z3; unbounded symbolic UID counter, ghost set of assigned UIDs'),
  'C05': dict(
   text='Exhaustive exploration of the abstract state x command table (4 pre-states x 46 command forms: every built-in '
@@ -188,7 +192,9 @@ CHECKS = {
        'co-simulation with the REAL class stepped one asyncio handle at a time on 1500-6000 random schedules; every counterexample is '
        'replayed on the real class. FileLock: the real write_lock/read_lock code under pysymex with a stub file system, a symbolic '
        'non-decreasing clock below the expiration and a solver-driven interleaving of two tasks: never two writers inside, lock file '
-       'absent afterwards, also when the critical section raises.',
+       'absent afterwards, also when the critical section raises; and FileWriteable.with_write (maildir control files) on a uidlist '
+       'whose header / record line is symbolic text (<= 5 quick / 8 thorough characters) or absent: the lock file is gone at the moment '
+       'the statement is left, whether it ends normally, by a parse error or by an exception of the body.',
   note='Trusted: z3; the asyncio primitive model (validated by co-simulation and counterexample replay on real asyncio); cooperative '
        'scheduling (a task step is atomic between suspension points). The BMC covers prefixes of executions up to S steps. Outside: the '
        'threading subsystem, FileLock expiry races (critical sections are assumed shorter than `expiration`), more than 4 tasks.',
